@@ -810,4 +810,69 @@ def exp_PSliceMut_a_to_vec : Sk :=
     (Soa.Sk.Item.init (Soa.Sk.FE.call "to_vec" [] (Soa.Sk.Post.none)))
     false
 
+-- scope C06
+def exp_PIter_a_Iterator_next : Sk :=
+  Soa.Sk.Sk.zipStep "next" (Soa.Sk.Ty.ref)
+
+-- scope C06
+def exp_PIter_a_DoubleEndedIterator_next_back : Sk :=
+  Soa.Sk.Sk.zipStep "next_back" (Soa.Sk.Ty.ref)
+
+-- scope C06
+def exp_PSlice_a_iter : Sk :=
+  Soa.Sk.Sk.zipNew
+    (Soa.Sk.Ty.iter)
+    (Soa.Sk.FE.call "iter" [] (Soa.Sk.Post.none))
+    (Soa.Sk.FE.call "iter" [] (Soa.Sk.Post.none))
+
+-- scope C06
+def exp_PSlice_a_into_iter : Sk :=
+  Soa.Sk.Sk.zipNew
+    (Soa.Sk.Ty.iter)
+    (Soa.Sk.FE.call "iter" [] (Soa.Sk.Post.none))
+    (Soa.Sk.FE.call "into_iter" [] (Soa.Sk.Post.none))
+
+-- scope C06
+def exp_PIterMut_a_Iterator_next : Sk :=
+  Soa.Sk.Sk.zipStep "next" (Soa.Sk.Ty.refMut)
+
+-- scope C06
+def exp_PIterMut_a_DoubleEndedIterator_next_back : Sk :=
+  Soa.Sk.Sk.zipStep "next_back" (Soa.Sk.Ty.refMut)
+
+-- scope C06
+def exp_PSliceMut_a_iter_mut : Sk :=
+  Soa.Sk.Sk.zipNew
+    (Soa.Sk.Ty.iterMut)
+    (Soa.Sk.FE.call "iter_mut" [] (Soa.Sk.Post.none))
+    (Soa.Sk.FE.call "iter_mut" [] (Soa.Sk.Post.none))
+
+-- scope C06
+def exp_PSliceMut_a_into_iter : Sk :=
+  Soa.Sk.Sk.zipNew
+    (Soa.Sk.Ty.iterMut)
+    (Soa.Sk.FE.call "iter_mut" [] (Soa.Sk.Post.none))
+    (Soa.Sk.FE.call "into_iter" [] (Soa.Sk.Post.none))
+
+-- scope C06
+def exp_PSlice_a_IntoIterator_into_iter : Sk :=
+  Soa.Sk.Sk.zipNew
+    (Soa.Sk.Ty.iter)
+    (Soa.Sk.FE.call "iter" [] (Soa.Sk.Post.none))
+    (Soa.Sk.FE.call "into_iter" [] (Soa.Sk.Post.none))
+
+-- scope C06
+def exp_aPSlice_b_IntoIterator_into_iter : Sk :=
+  Soa.Sk.Sk.zipNew
+    (Soa.Sk.Ty.iter)
+    (Soa.Sk.FE.call "iter" [] (Soa.Sk.Post.none))
+    (Soa.Sk.FE.call "into_iter" [] (Soa.Sk.Post.none))
+
+-- scope C06
+def exp_PSliceMut_a_IntoIterator_into_iter : Sk :=
+  Soa.Sk.Sk.zipNew
+    (Soa.Sk.Ty.iterMut)
+    (Soa.Sk.FE.call "iter_mut" [] (Soa.Sk.Post.none))
+    (Soa.Sk.FE.call "into_iter" [] (Soa.Sk.Post.none))
+
 end Soa.Sk.Expected
